@@ -26,13 +26,19 @@ theorem c01_source_facts :
     IpcHub.Gen.mediaFactsUnknown = [] ∧
     subseq ["cs.l.Lock", "defer cs.l.Unlock", "cache.CachePack", "cs.SendToAll"] IpcHub.Gen.progCacheAndSend = true ∧
     countOf "cs.l.Lock" IpcHub.Gen.progCacheAndSend = 1 ∧
-    subseq ["s.cacheAndSend", "s.rtpDemuxer.WriteRtpPacket"] IpcHub.Gen.progWriteRtpPacket = true ∧
+    countOf "s.cacheAndSend" IpcHub.Gen.progWriteRtpPacket = 1 ∧
     subseq ["atomic.LoadInt32", "s.cacheAndSend"] IpcHub.Gen.progWriteFlvTag = true ∧
     subseq ["cs.l.Lock", "atomic.LoadInt32", "c.sendGop", "cs.Add", "cs.l.Unlock", "go c.consume"] IpcHub.Gen.progStartConsume = true ∧
     countOf "cs.l.Lock" IpcHub.Gen.progStartConsume = 1 ∧ countOf "cs.l.Unlock" IpcHub.Gen.progStartConsume = 1 ∧
     subseq ["m.Range", "c.send"] IpcHub.Gen.progSendToAll = true ∧
     subseq ["c.recvQueue.Len", "c.recvQueue.Push"] IpcHub.Gen.progConsSend = true ∧
-    subseq ["c.recvQueue.Pop", "c.consumer.Consume"] IpcHub.Gen.progConsConsume = true := by
+    subseq ["c.recvQueue.Pop", "c.consumer.Consume"] IpcHub.Gen.progConsConsume = true ∧
+    -- the critical sections start with the lock: no path touches the table or the cache before it
+    IpcHub.Gen.progCacheAndSend.take 2 = ["cs.l.Lock", "defer cs.l.Unlock"] ∧
+    -- PushTo hands out COPIES of the cached FLV header tags (it assigns to locals, never through the cache's pointers)
+    countOf "set cache.metaData.Timestamp" IpcHub.Gen.progFlvPushTo = 0 ∧
+    countOf "set cache.videoSequenceHeader.Timestamp" IpcHub.Gen.progFlvPushTo = 0 ∧
+    countOf "set cache.audioSequenceHeader.Timestamp" IpcHub.Gen.progFlvPushTo = 0 := by
   decide
 
 /-- Shape: for every consumer, what it has received plus what is still queued for it is exactly
